@@ -38,6 +38,20 @@ func (r *abort1) StoreBroadcastMessage(msg round.Message) error {
 		return round.ErrInvalidContent
 	}
 
+	if body.GammaShare == nil || body.KProof == nil || body.KProof.Plaintext == nil {
+		return round.ErrNilFields
+	}
+	for _, deltaProof := range body.DeltaProofs {
+		if deltaProof == nil || deltaProof.Plaintext == nil {
+			return round.ErrNilFields
+		}
+	}
+	for _, id := range r.PartyIDs() {
+		if _, ok := body.DeltaProofs[id]; !ok && id != from {
+			return round.ErrNilFields
+		}
+	}
+
 	alphas := make(map[party.ID]*saferith.Int, len(body.DeltaProofs))
 	for id, deltaProof := range body.DeltaProofs {
 		alphas[id] = deltaProof.Plaintext
